@@ -309,49 +309,60 @@ PROPS = {
             "ids stand for Arc<TrackShared> identities; arena keys/generations are not modelled (C08)",
         ],
     },
-    "C13": {
-        "suites": [{"name": "fxa", "quick": 4000, "thorough": 40000}],
-        "level_text": "Lean theorems about the models of volume_control, panning_control, filter, eq_filter, distortion and "
-                      "compressor over the reals, for all inputs, parameter values, sample rates and partitions: dry settings are "
-                      "the identity (mix 0, 0 dB volume, centre pan, 0 dB EQ gain for all three kinds, unity hard clip below full "
-                      "scale), silence stays silent from the cleared state (for filter/EQ/volume/pan even while parameters tween), "
-                      "every divisor is positive and every square-root argument lies in [0,1] on the documented ranges, "
-                      "filter/EQ/volume/pan are additive and homogeneous in (integrator state, input), and with parameters at rest "
-                      "one process call on xs++ys equals two calls (hence every partition into slices, empty ones included); "
-                      "the same definitions run as a Float twin and agree bit-for-bit with the Box<dyn Effect>s built by kira's "
-                      "public builders on every generated op",
-        "level_note": "first half of C13 (the six memoryless/SVF/envelope effects; delay and reverb are the second half); theorems "
-                      "over ideal real arithmetic: BIBO boundedness of the SVF recursions and float-level finiteness over long runs "
-                      "are exercised by the oracles (finite_output, split_vs_whole bit equality, superposition/scaling residuals), "
-                      "not proved; chunk-freedom is proved for parameters at rest (with a tween in flight kira interpolates per "
-                      "slice, so the output legitimately depends on the partition)",
-        "assumptions": [
-            "parameters at rest (not tweening, not modulator-linked) for linearity / chunk-freedom / dry identity",
-            "distortion drive > -60 dB; compressor ratio != 0 (outside: known findings dist-silent-drive-nan, comp-ratio-zero-nan)",
-            "dt > 0; relative cutoff below Nyquist for the positivity of g (at the clamp edge tan(pi/2) is 1.6e16 in floating point)",
-        ],
-    },
-    "C14": {
-        "suites": [{"name": "fxa", "quick": 4000, "thorough": 40000}],
-        "level_text": "Lean theorems about the models of the six effects over the reals: volume = input x 10^(dB/20) (0 at -60 dB and "
-                      "below); equal-power pan gains with gL^2+gR^2 = 2, centre identity, hard left/right; for the SVF of filter.rs "
-                      "the exact DC fixed point (unique on the documented ranges) with gains LP 1 / notch 1 / BP 0 / HP 0, the exact "
-                      "Nyquist orbit with gains HP 1 / notch 1 / LP 0 / BP 0, and the exact sinusoidal orbit at the corner: gain "
-                      "1/(2-1.9 resonance) with the analog prototype's phases, a perfect notch, corner angle 2 pi cutoff dt (the "
-                      "requested frequency in hertz at every sample rate); for eq_filter.rs DC gain 10^(gain/20) for the low shelf and "
-                      "1 for bell/high shelf, Nyquist gain 10^(gain/20) for the high shelf, and exactly the requested gain at the bell "
-                      "centre for every Q; compressor: below threshold from rest output = input x makeup exactly, envelope error "
-                      "contracts by exp(-dt/tau) per frame on either side (closed form over n frames), envelope -> level-threshold and "
-                      "gain reduction -> -(level-threshold)(1-1/ratio) dB; distortion = clamp(x d,-1,1)/d resp. x/(1+|x d|), identity "
-                      "while |x d| <= 1 resp. within d x^2; the same definitions run as a Float twin bit-for-bit equal to kira",
-        "level_note": "first half of C14 (delay/reverb are the second half); theorems over ideal real arithmetic on the steady-state "
-                      "orbits (fixed point, period-2 orbit, sinusoidal orbit): convergence of the SVF to these orbits from other "
-                      "states (asymptotic stability) and the response at frequencies other than DC / corner / Nyquist are measured by "
-                      "the oracles dc_gain_*, nyquist_gain, corner_gain on the real code, not proved; shelf mid-point gains not stated",
-        "assumptions": [
-            "parameters at rest (not tweening, not modulator-linked)",
-            "dt > 0 and relative cutoff below Nyquist for the corner / uniqueness theorems",
-            "compressor ratio != 0, distortion drive > -60 dB (outside: known findings)",
-        ],
-    },
+    "C13": {'suites': [{'name': 'fxa', 'quick': 4000, 'thorough': 40000}, {'name': 'fxb', 'quick': 6000, 'thorough': 40000}],
+     'level_text': '[filter, eq_filter, distortion, compressor, volume_control, panning_control] Lean theorems about the models of volume_control, '
+                   'panning_control, filter, eq_filter, distortion and compressor over the reals, for all inputs, parameter values, sample rates and '
+                   'partitions: dry settings are the identity (mix 0, 0 dB volume, centre pan, 0 dB EQ gain for all three kinds, unity hard clip below '
+                   'full scale), silence stays silent from the cleared state (for filter/EQ/volume/pan even while parameters tween), every divisor is '
+                   'positive and every square-root argument lies in [0,1] on the documented ranges, filter/EQ/volume/pan are additive and homogeneous in '
+                   '(integrator state, input), and with parameters at rest one process call on xs++ys equals two calls (hence every partition into '
+                   'slices, empty ones included); the same definitions run as a Float twin and agree bit-for-bit with the Box<dyn Effect>s built by '
+                   "kira's public builders on every generated op || [delay, reverb] (delay + reverb half) Lean theorems about the models of "
+                   'effect/delay.rs and effect/reverb.rs (+comb.rs, all_pass.rs) over the reals, for all inputs, parameters, line lengths and '
+                   "partitions: dry mix is the identity, silence stays silent, chunk-free (the delay's sub-chunking by the line length equals the "
+                   'per-frame delay line; with an abstract feedback-effect chain), superposition and scaling in (state, input) for any parameter states, '
+                   'BIBO bounds for the comb / all-pass / delay lines and an invariant bound for the whole reverb network (fixed parameters), no fault '
+                   "at >= 196 Hz; the same definitions run as a Float twin and agree bit-for-bit with kira's DelayBuilder / ReverbBuilder effects on "
+                   'every generated op',
+     'level_note': 'first half of C13 (the six memoryless/SVF/envelope effects; delay and reverb are the second half); theorems over ideal real '
+                   'arithmetic: BIBO boundedness of the SVF recursions and float-level finiteness over long runs are exercised by the oracles '
+                   '(finite_output, split_vs_whole bit equality, superposition/scaling residuals), not proved; chunk-freedom is proved for parameters at '
+                   'rest (with a tween in flight kira interpolates per slice, so the output legitimately depends on the partition) || theorems over '
+                   'ideal real arithmetic; chunk-freeness needs stagnant parameters (a tweening parameter is interpolated per process call in kira: '
+                   'covered by the bit-exact correspondence only); nested feedback effects are abstract in the theorems and probe effects (gain / '
+                   'one-pole) in the correspondence; long-run finiteness of the full reverb is proved for fixed parameters only '
+                   '(C13_reverb_bounded_partial) and exercised by the finite_output oracle otherwise',
+     'assumptions': ['parameters at rest (not tweening, not modulator-linked) for linearity / chunk-freedom / dry identity',
+                     'distortion drive > -60 dB; compressor ratio != 0 (outside: known findings dist-silent-drive-nan, comp-ratio-zero-nan)',
+                     'dt > 0; relative cutoff below Nyquist for the positivity of g (at the clamp edge tan(pi/2) is 1.6e16 in floating point)',
+                     'delay line of at least one frame (delay_time >= 1/fs): the excluded point panics in kira (known finding)',
+                     'process slices no longer than the internal buffer size (as the mixer guarantees)',
+                     "reverb sample rate >= 196 Hz (every line has a slot); C13's range is 8 kHz..192 kHz",
+                     'feedback effects keep the slice length and are themselves chunk-free (and linear, for the linearity theorems)']},
+    "C14": {'suites': [{'name': 'fxa', 'quick': 4000, 'thorough': 40000}, {'name': 'fxb', 'quick': 6000, 'thorough': 40000}],
+     'level_text': '[filter, eq_filter, distortion, compressor, volume_control, panning_control] Lean theorems about the models of the six effects over '
+                   'the reals: volume = input x 10^(dB/20) (0 at -60 dB and below); equal-power pan gains with gL^2+gR^2 = 2, centre identity, hard '
+                   'left/right; for the SVF of filter.rs the exact DC fixed point (unique on the documented ranges) with gains LP 1 / notch 1 / BP 0 / '
+                   'HP 0, the exact Nyquist orbit with gains HP 1 / notch 1 / LP 0 / BP 0, and the exact sinusoidal orbit at the corner: gain 1/(2-1.9 '
+                   "resonance) with the analog prototype's phases, a perfect notch, corner angle 2 pi cutoff dt (the requested frequency in hertz at "
+                   'every sample rate); for eq_filter.rs DC gain 10^(gain/20) for the low shelf and 1 for bell/high shelf, Nyquist gain 10^(gain/20) for '
+                   'the high shelf, and exactly the requested gain at the bell centre for every Q; compressor: below threshold from rest output = input '
+                   'x makeup exactly, envelope error contracts by exp(-dt/tau) per frame on either side (closed form over n frames), envelope -> '
+                   'level-threshold and gain reduction -> -(level-threshold)(1-1/ratio) dB; distortion = clamp(x d,-1,1)/d resp. x/(1+|x d|), identity '
+                   'while |x d| <= 1 resp. within d x^2; the same definitions run as a Float twin bit-for-bit equal to kira || [delay, reverb] (delay + '
+                   "reverb half) Lean theorems over the reals: the delay's impulse response is an echo at every multiple of L = floor(delay*fs) frames "
+                   'with amplitude fb^k shaped k times by the feedback chain and zero elsewhere; the reverb model is the Freeverb network (8 parallel '
+                   'combs + 4 series all-passes per channel, sizes floor(c*fs/44100), spread 23, gain 0.015, all-pass feedback 0.5) with the constants '
+                   "re-extracted from the Rust source into Gen.lean on every run; the comb's impulse response decays geometrically for feedback < 1; "
+                   'Float twin bit-exact against kira on every generated op',
+     'level_note': 'first half of C14 (delay/reverb are the second half); theorems over ideal real arithmetic on the steady-state orbits (fixed point, '
+                   'period-2 orbit, sinusoidal orbit): convergence of the SVF to these orbits from other states (asymptotic stability) and the response '
+                   'at frequencies other than DC / corner / Nyquist are measured by the oracles dc_gain_*, nyquist_gain, corner_gain on the real code, '
+                   'not proved; shelf mid-point gains not stated || theorems over ideal real arithmetic (the f64 rounding of delay*fs at exact frame '
+                   'boundaries is a known finding); conformance of the model to the cited Freeverb code is by the stated equalities and by inspection',
+     'assumptions': ['parameters at rest (not tweening, not modulator-linked)',
+                     'dt > 0 and relative cutoff below Nyquist for the corner / uniqueness theorems',
+                     'compressor ratio != 0, distortion drive > -60 dB (outside: known findings)',
+                     'stagnant feedback / mix parameters for the echo theorem',
+                     '0 <= feedback < 1 and 0 <= damping <= 1 for the decay bound']},
 }
